@@ -319,7 +319,7 @@ class BinTableLists(AbstractBinTable):
         rows = range(self.height) if rows is None else rows
         if columns is None:
             return [any(self.data[i]) for i in rows]
-        return [any([self.data[i][j] for j in columns] for i in rows)]
+        return [any([self.data[i][j] for j in columns]) for i in rows]
 
     def _any_per_column(self, rows: List[int] = None, columns: List[int] = None) -> Row_DType:
         rows = range(self.height) if rows is None else rows
